@@ -264,6 +264,18 @@ func (f *RunningEventFilter) onReorg(writer db.KeyValueWriter) error {
 		if err != nil {
 			return err
 		}
+		// The window being re-entered is no longer complete: drop its persisted
+		// copy as well, otherwise a rebuild after an ungraceful restart treats it
+		// as finished and roots the running filter at the next window. The next
+		// rollover writes it again.
+		if err := DeleteAggregatedBloomFilter(
+			writer, rangeStartAligned, rangeEndAligned,
+		); err != nil {
+			return fmt.Errorf(
+				"deleting persisted filter for re-entered window [%d,%d]: %w",
+				rangeStartAligned, rangeEndAligned, err,
+			)
+		}
 		f.inner = &lastStoredFilter
 	}
 
